@@ -17,7 +17,7 @@ func init() {
 		Run: runC23,
 		Explanation: "Static decision of the structure of path-rule resolution: (1) FIELDS-merge: mergePathConf writes every setting of a path rule (all exported fields except the prefix itself) into the accumulator, taking the later (longer) rule's value when it sets the field and keeping the accumulated value otherwise — Nvl(b.f, a.f) argument order, `if b.f is set {a.f = b.f}` guards, `b.f || a.f`; " +
 			"(2) ORDER-match: MatchStorageRule merges every rule reported by the prefix match into one accumulator (accumulator first, rule second) and never stops the walk early; (3) GUARD-delete: DeleteLocationConf drops exactly the rule whose key equals the given prefix byte for byte, re-inserts every other rule and installs the rebuilt set. " +
-			"That the trie reports shorter prefixes before longer ones is trusted (ptrie.MatchPrefix).",
+			"That the trie reports shorter prefixes before longer ones is trusted (ptrie.MatchPrefix). Also decided: every answer of MatchStorageRule is the accumulator built for this lookup after the prefix walk; kept rules are re-inserted under a private copy of their key.",
 		Assumptions: []string{"ptrie.MatchPrefix visits matching prefixes from shortest to longest", "a field counts as set when it is not its zero value"},
 		Trusted:     append([]string{"github.com/viant/ptrie prefix walk order"}, baseTrusted...),
 	})
